@@ -610,6 +610,7 @@ REAL = ["Cuboid", "Cylinder", "CylinderSegment", "Sphere", "Tetrahedron", "Trian
 TETRA = [[0, 0, 0], [1, 0, 0], [0, 1, 0], [0, 0, 1]]
 TETRA_NEG = [[0, 0, 0], [0, 1, 0], [1, 0, 0], [0, 0, 1]]       # negative chirality: check_chirality swaps vertices
 FACES = [[0, 2, 1], [0, 1, 3], [1, 2, 3], [0, 3, 2]]
+FACES_BAD = [[0, 2, 1], [0, 1, 3], [1, 3, 2], [0, 3, 2]]       # third face points inwards
 CUSTOM_MODES = ["ok", "raise", "none", "wrong", "nofunc", "onlyB", "raise2", "none2"]
 
 
@@ -624,6 +625,10 @@ def g_real(rng):
         d["missing"] = None
     if cls == "Tetrahedron":
         d["verts"] = rng.choice([TETRA, TETRA_NEG])
+    if cls == "TriangularMesh":
+        # built without checks / without reorientation, possibly with a mis-oriented face
+        d["faces"] = rng.choice([FACES, FACES_BAD, FACES_BAD])
+        d["checks"] = rng.choice(["skip", "skip", "ignore", "default"])
     return d
 
 
@@ -667,7 +672,10 @@ def mk_real(d):
     if c == "Triangle":
         return magpy.misc.Triangle(vertices=TETRA[:3] if dim else None, polarization=pol, **kw)
     if c == "TriangularMesh":
-        return magpy.magnet.TriangularMesh(vertices=TETRA, faces=FACES, polarization=pol, **kw)
+        mode = d.get("checks", "default")
+        extra = {} if mode == "default" else {"check_open": mode, "check_disconnected": mode,
+                                              "check_selfintersecting": mode, "reorient_faces": mode}
+        return magpy.magnet.TriangularMesh(vertices=TETRA, faces=d.get("faces", FACES), polarization=pol, **extra, **kw)
     if c == "Circle":
         return magpy.current.Circle(diameter=1.1 if dim else None, current=1.5 if exc else None, **kw)
     if c == "Polyline":
@@ -745,26 +753,56 @@ def _canon(v):
     return ("v", repr(v))
 
 
+# attributes that a field call may legitimately fill: none. (TriangularMesh's _status_* caches are only
+# computed by the check_* / reorient_faces methods; getB just warns about an unchecked mesh.)
+ALLOWED_LAZY = ()
+
+
+def _canon_deep(v, ids, seen, depth=0):
+    """canonical value of anything reachable from an object's __dict__ (arrays bit-exact)"""
+    if isinstance(v, np.ndarray):
+        if v.dtype == object:
+            return ("ndo", v.shape, tuple(_canon_deep(x, ids, seen, depth + 1) for x in v.ravel()))
+        return ("nd", v.dtype.str, v.shape, v.tobytes())
+    if isinstance(v, R):
+        q = np.array(v.as_quat())
+        return ("rot", q.shape, q.tobytes())
+    if v is None or isinstance(v, (bool, int, float, complex, str, bytes)):
+        return ("v", repr(v))
+    if id(v) in ids:
+        return ("ref", ids[id(v)])
+    if isinstance(v, (list, tuple)):
+        return ("seq", type(v).__name__, tuple(_canon_deep(x, ids, seen, depth + 1) for x in v))
+    if isinstance(v, (set, frozenset)):
+        return ("set", tuple(sorted(repr(_canon_deep(x, ids, seen, depth + 1)) for x in v)))
+    if isinstance(v, dict):
+        return ("dict", tuple((repr(k), _canon_deep(x, ids, seen, depth + 1)) for k, x in sorted(v.items(), key=lambda kv: repr(kv[0]))))
+    if callable(v) and not hasattr(v, "__dict__"):
+        return ("fn", id(v))
+    if callable(v) and type(v).__name__ in ("function", "method", "builtin_function_or_method"):
+        return ("fn", id(getattr(v, "__func__", v)))
+    if hasattr(v, "__dict__") and depth < 8 and id(v) not in seen:
+        seen = seen | {id(v)}
+        return ("obj", type(v).__name__,
+                tuple((k, _canon_deep(x, ids, seen, depth + 1)) for k, x in sorted(vars(v).items())))
+    return ("other", type(v).__name__)
+
+
 def deep_snapshot(allobjs):
+    """bit-exact value of everything stored on the objects (vars(), recursively). No public getter is
+    called (a getter could itself fill a cache), except `style`, whose lazy creation of `_style` is the one
+    documented on-demand initialisation: it is forced here so that it never counts as a change."""
     ids = {id(o): i for i, o in enumerate(allobjs)}
     snap = []
     for o in allobjs:
+        _ = o.style
         d = {"position": _canon(np.array(o._position)), "orientation": _canon(np.array(o._orientation.as_quat())),
              "npos": len(o._position), "nori": len(o._orientation)}
-        for a in ATTRS:
-            if hasattr(o, a):
-                try:
-                    d[a] = _canon(getattr(o, a))
-                except Exception as e:  # pylint: disable=broad-except
-                    d[a] = ("exc", type(e).__name__)
-        d["parent"] = ids.get(id(o.parent), "ext") if getattr(o, "parent", None) is not None else None
-        for a in ("children", "sources", "sensors", "collections"):
-            if isinstance(o, magpy.Collection):
-                d[a] = tuple(ids.get(id(c), "ext") for c in getattr(o, a))
-        d["style"] = json.dumps(o.style.as_dict(), sort_keys=True, default=str)
-        if hasattr(o, "field_func"):
-            d["field_func"] = id(o.field_func)
         d["dictkeys"] = tuple(sorted(o.__dict__.keys()))
+        for k, v in sorted(vars(o).items()):
+            if k in ("_position", "_orientation") or k in ALLOWED_LAZY:
+                continue        # paths: compared above (the arrays are replaced by equal ones)
+            d["private " + k] = _canon_deep(v, ids, frozenset({id(o)}))
         snap.append(d)
     return snap
 
@@ -784,17 +822,16 @@ def snap_diff(a, b, allobjs):
                         return "orientation-bits", f"{cls}: stored quaternions changed in the last bits " \
                             f"(max abs diff {np.abs(qa - qb).max():.1e})"
                     return "orientation-values", f"{cls}: orientation changed"
-                return f"{k}:{cls}", f"{cls}.{k} changed"
+                k2 = k.replace("private ", "")
+                return f"{k2}:{cls}", f"{cls}.{k2} changed"
     return None
 
 
-def build_scene(sc):
-    S.idx = 0
-    objs = [mk_real(d) for d in sc["objs"]]
+def assemble(sc, objs):
+    """collections, source list and observers of a scene for a given list of leaf objects"""
     colls = []
     for c in sc["colls"]:
-        col = magpy.Collection(*[objs[k] for k in c["kids"]], position=c["pos"],
-                               orientation=R.from_rotvec(np.array(c["rotvec"], dtype=float)))
+        col = magpy.Collection(*[objs[k] for k in c["kids"]])
         if c["nest"]:
             col = magpy.Collection(col)
         colls.append(col)
@@ -813,6 +850,17 @@ def build_scene(sc):
             arrays["observers"] = observers
     else:
         observers = [objs[k] for k in ob["sens"]]
+    return colls, allobjs, srcs, observers, arrays
+
+
+def build_scene(sc):
+    S.idx = 0
+    objs = [mk_real(d) for d in sc["objs"]]
+    colls, allobjs, srcs, observers, arrays = assemble(sc, objs)
+    for c, col in zip(sc["colls"], colls):      # the collection's own pose (children keep theirs)
+        inner = col.children[0] if c["nest"] else col
+        inner._position = np.array(c["pos"], dtype=float)
+        inner._orientation = R.from_rotvec(np.array(c["rotvec"], dtype=float))
     return objs, colls, allobjs, srcs, observers, arrays
 
 
@@ -935,6 +983,173 @@ def search_scenes(ctx, n):
             already = any(f["signature"] == sig for f in ctx.impl_failures)
             small = sc if already else shrink_scene(sc, sig)
             ctx.impl_fail(sig, text, {"kind": "scene", "scene": small})
+
+
+# ---------------------------------------------------------------------- histories: call -> public change -> call vs fresh twin
+def rebuild_obj(o):
+    """a brand new object with the same PUBLIC state (what the user can read off the object)"""
+    kw = {"position": o.position, "orientation": o.orientation}
+    t = type(o)
+    if t in (magpy.magnet.Cuboid, magpy.magnet.Cylinder, magpy.magnet.CylinderSegment):
+        return t(dimension=o.dimension, polarization=o.polarization, **kw)
+    if t is magpy.magnet.Sphere:
+        return t(diameter=o.diameter, polarization=o.polarization, **kw)
+    if t in (magpy.magnet.Tetrahedron, magpy.misc.Triangle):
+        return t(vertices=o.vertices, polarization=o.polarization, **kw)
+    if t is magpy.magnet.TriangularMesh:
+        return t(vertices=o.vertices, faces=o.faces, polarization=o.polarization, check_open="skip",
+                 check_disconnected="skip", check_selfintersecting="skip", reorient_faces="skip", **kw)
+    if t is magpy.current.Circle:
+        return t(diameter=o.diameter, current=o.current, **kw)
+    if t is magpy.current.Polyline:
+        return t(vertices=o.vertices, current=o.current, **kw)
+    if t is magpy.misc.Dipole:
+        return t(moment=o.moment, **kw)
+    if t is magpy.misc.CustomSource:
+        return t(field_func=o.field_func, **kw)
+    if t is magpy.Sensor:
+        return t(pixel=o.pixel, handedness=o.handedness, **kw)
+    raise ValueError(t)
+
+
+def g_mutation(rng, sc):
+    """one public change of an object of the scene"""
+    i = rng.randrange(len(sc["objs"]))
+    cls = sc["objs"][i]["cls"]
+    opts = [{"op": "move", "v": rvec(rng, 1)}, {"op": "rotate", "rv": rvec(rng, 1)},
+            {"op": "setpos", "v": [rvec(rng, 2) for _ in range(rng.choice([1, 2, 4]))]}]
+    pol = [round(rng.uniform(-1, 1), 3) for _ in range(3)]
+    if cls in ("Cuboid", "Cylinder", "CylinderSegment", "Sphere", "Tetrahedron", "Triangle", "TriangularMesh"):
+        opts += [{"op": "set", "attr": "polarization", "value": pol},
+                 {"op": "set", "attr": "magnetization", "value": [x * 1e5 for x in pol]}]
+    if cls == "TriangularMesh":
+        opts += [{"op": "reorient"}] * 4
+    if cls == "Cuboid":
+        opts.append({"op": "set", "attr": "dimension", "value": [0.4, 1.3, 0.9]})
+    if cls == "Cylinder":
+        opts.append({"op": "set", "attr": "dimension", "value": [0.7, 1.3]})
+    if cls == "CylinderSegment":
+        opts.append({"op": "set", "attr": "dimension", "value": [0.2, 0.9, 1.1, -30, 100]})
+    if cls in ("Sphere", "Circle"):
+        opts.append({"op": "set", "attr": "diameter", "value": 0.65})
+    if cls == "Tetrahedron":
+        opts.append({"op": "set", "attr": "vertices", "value": [[0, 0, 0], [1, 0, 0], [0, 2, 0], [0, 0, 1]]})
+    if cls == "Triangle":
+        opts.append({"op": "set", "attr": "vertices", "value": [[0, 0, 0], [1, 0, 0.2], [0, 2, 0]]})
+    if cls == "Polyline":
+        opts += [{"op": "set", "attr": "vertices", "value": [[0, 0, 0], [0, 1, 0], [1, 1, 1], [2, 0, 0]]}]
+    if cls in ("Circle", "Polyline"):
+        opts.append({"op": "set", "attr": "current", "value": -0.75})
+    if cls == "Dipole":
+        opts.append({"op": "set", "attr": "moment", "value": pol})
+    if cls == "Sensor":
+        opts += [{"op": "set", "attr": "pixel", "value": [[0.1, 0, 0], [0, 0.2, 0], [0, 0, 0.3]]},
+                 {"op": "set", "attr": "handedness", "value": rng.choice(["left", "right"])}]
+    m = dict(rng.choice(opts))
+    m["obj"] = i
+    return m
+
+
+def apply_mutation(objs, m):
+    o = objs[m["obj"]]
+    if m["op"] == "move":
+        o.move(m["v"])
+    elif m["op"] == "rotate":
+        o.rotate_from_rotvec(m["rv"], degrees=False)
+    elif m["op"] == "setpos":
+        o.position = m["v"]
+    elif m["op"] == "reorient":
+        o.reorient_faces(mode="ignore")
+    else:
+        setattr(o, m["attr"], m["value"])
+
+
+def g_history(rng):
+    sc = g_scene(rng)
+    if rng.random() < 0.35:         # a mesh built without reorientation whose third face points inwards
+        sc["objs"][0] = dict(g_real(rng), cls="TriangularMesh", missing=None, faces=FACES_BAD, checks="skip")
+        if not any(s.get("obj") == 0 for s in sc["sources"]) and \
+                not any(0 in c["kids"] for c in sc["colls"]):
+            sc["sources"].append({"obj": 0})
+        sc["field"] = rng.choice("BH")
+    # the first call should mostly succeed: histories are about state left behind by field calls
+    if rng.random() < 0.8:
+        sc.update(pixel_agg=None if sc["pixel_agg"] not in (None, "mean", "min") else sc["pixel_agg"],
+                  output="ndarray" if sc["output"] == "bogus" else sc["output"], kwargs=False)
+    sc["mutations"] = [g_mutation(rng, sc) for _ in range(rng.randint(1, 2))]
+    return sc
+
+
+def _numeric(v):
+    if hasattr(v, "select_dtypes"):
+        v = v.select_dtypes("number").to_numpy()
+    return np.asarray(v, dtype=float)
+
+
+def check_history(sc):
+    """call, change objects through the public API, call again: the second result must be what brand
+    new objects with the same public state give (a field call must not leave state that later calls use).
+    The twins' quaternions went through the constructor once more, hence a tolerance relative to the field scale."""
+    objs, colls, allobjs, srcs, observers, _ = build_scene(sc)
+    call_scene(sc, objs, srcs, observers)
+    for m in sc["mutations"]:
+        try:
+            apply_mutation(objs, m)
+        except Exception:  # pylint: disable=broad-except
+            return [], "mutation-rejected"
+    v2, e2 = call_scene(sc, objs, srcs, observers)
+    twins = [rebuild_obj(o) for o in objs]
+    _, _, tsrcs, tobs, _ = assemble(sc, twins)
+    vt, et = call_scene(sc, twins, tsrcs, tobs)
+    trig = "+".join(dict.fromkeys(type(objs[m["obj"]]).__name__ + ":" + (m.get("attr") or m["op"])
+                                  for m in sc["mutations"]))
+    if (e2 is None) != (et is None) or (e2 is not None and type(e2) is not type(et)):
+        return [(f"fresh-twin/outcome:{trig}", f"after call -> {trig} -> call: {CODE_NAME[exc_code(e2)]}, "
+                 f"fresh objects with the same public state: {CODE_NAME[exc_code(et)]}")], CODE_NAME[exc_code(e2)]
+    if e2 is None:
+        a, b = _numeric(v2), _numeric(vt)
+        fin = np.isfinite(a) & np.isfinite(b) if a.shape == b.shape else None
+        scale = max(float(np.max(np.abs(b[fin]), initial=0.0)), 1e-300) if fin is not None else 1.0
+        if a.shape != b.shape or not np.array_equal(np.isfinite(a), np.isfinite(b)) or \
+                float(np.max(np.abs(a[fin] - b[fin]), initial=0.0)) > 1e-9 * scale:
+            diff = "shape" if a.shape != b.shape else f"{float(np.max(np.abs(a[fin] - b[fin]), initial=0.0)):.2e} (scale {scale:.2e})"
+            return [(f"fresh-twin/value:{trig}", f"get{sc['field']} after call -> {trig} -> call differs from fresh "
+                     f"objects with the same public state: max abs diff {diff}")], "returns"
+    return [], CODE_NAME[exc_code(e2)]
+
+
+def search_histories(ctx, n):
+    for _ in range(n):
+        sc = g_history(ctx.rng)
+        try:
+            res, what = check_history(sc)
+        except Exception as e:  # our own machinery
+            raise RuntimeError(f"history failed to run: {type(e).__name__}: {e}; scene={json.dumps(sc)[:1500]}") from e
+        ctx.case(("history", json.dumps(sc, sort_keys=True, default=str)), True)
+        ctx.bump("history-outcome:" + what)
+        for m in sc["mutations"]:
+            ctx.bump("history-mutation:" + (m.get("attr") or m["op"]))
+        for sig, text in res:
+            clause = sig.split(":")[0]
+
+            def fails(c2, clause=clause):
+                try:
+                    return any(x.split(":")[0] == clause for x, _ in check_history(c2)[0])
+                except Exception:  # pylint: disable=broad-except
+                    return False
+            small = copy.deepcopy(sc)
+            for m in sc["mutations"]:                      # a single responsible change?
+                if len(small["mutations"]) > 1 and fails(dict(small, mutations=[m])):
+                    small["mutations"] = [m]
+            if len(small["sources"]) > 1:
+                small["sources"] = shrink_list(small["sources"], lambda l: bool(l) and fails(dict(small, sources=l)),
+                                               max_steps=8)
+            for k, v in (("pixel_agg", None), ("output", "ndarray"), ("in_out", "auto"), ("sumup", False),
+                         ("entry", "top"), ("squeeze", True)):
+                if small[k] != v and fails(dict(small, **{k: v})):
+                    small[k] = v
+            res2 = [r for r in check_history(small)[0] if r[0].split(":")[0] == clause] or [(sig, text)]
+            ctx.impl_fail(res2[0][0], res2[0][1], {"kind": "history", "scene": small})
 
 
 # ---------------------------------------------------------------------- functional interface: caller arrays
@@ -1085,6 +1300,7 @@ def run(ctx):
     run_guarded(ctx, lambda: run_corpus(ctx), "C08 corpus")
     big = bool(ctx.broken)
     run_guarded(ctx, lambda: search_scenes(ctx, ctx.n(500, 6000) * (3 if big else 1)), "C08 scene search")
+    run_guarded(ctx, lambda: search_histories(ctx, ctx.n(300, 4000) * (2 if big else 1)), "C08 history search")
     run_guarded(ctx, lambda: check_dict_iface(ctx, ctx.n(120, 1500)), "C08 functional interface arrays")
     run_guarded(ctx, lambda: check_object_arrays(ctx), "C08 object arrays")
 
@@ -1115,6 +1331,10 @@ def replay(ctx, obj):
     if kind == "scene":
         res, code = check_scene(rp["scene"])
         print("replay: call", CODE_NAME[code])
+        bad = res
+    elif kind == "history":
+        res, what = check_history(rp["scene"])
+        print("replay: second call", what)
         bad = res
     elif kind == "exact-scene":
         from translate import gen_l2flow
